@@ -20,7 +20,7 @@ def render(toks, rot, arches):
 
 
 def evaluate(case):
-    import productmd.common as C
+    from . import enums as C
     from productmd.rpms import Rpms
     rot = case.get("rot", 0)
     arches = [a for a in C.RPM_ARCHES]
